@@ -84,7 +84,9 @@ ivars == <<msgQ, regQ, pref, known, rl, stale>>
 mvars == <<ms, last, list>>
 pvars == <<repE, repC, overtaken, eaten>>
 vars  == <<tvars, ivars, mvars, pvars, lastAct>>
-View  == <<tvars, ivars, mvars, pvars>>
+\* `last` only feeds the answer to a later sync of a pulse lane: it is left out of the VIEW (no invariant reads it);
+\* replayed behaviours come from simulation, where the whole state is carried along a path
+View  == <<tvars, ivars, ms, list, pvars>>
 
 Of(S, l) == {r \in Remotes : <<l, r>> \in S}
 N(l) == Cardinality(Of(linked, l))
@@ -119,7 +121,10 @@ ProcMsg(Q, m) ==
 
 ProcReg(Q, l) ==
     IF Q.known THEN [Q EXCEPT !.rl = @ \cup {l}, !.stale = TRUE]                        \* add_lane: epoch + 1
-    ELSE [Q EXCEPT !.over = @ \cup {l}]                                                 \* with_agent finds nothing: DROPPED
+    \* with_agent finds nothing: the registration is DROPPED.  Harmless if the agent has closed; a loss if the
+    \* agent's own registration is still waiting in the other channel (F3d)
+    ELSE IF \E i \in 1..Len(Q.msgQ) : Q.msgQ[i].t = "AddAgent" THEN [Q EXCEPT !.over = @ \cup {l}]
+    ELSE Q
 
 RECURSIVE Drain(_)
 Drain(Q) ==
@@ -303,7 +308,8 @@ Init == /\ ag = "none" /\ added = {} /\ failed = {} /\ att = {} /\ linked = {}
 
 Spec == Init /\ [][Next]_vars
 Bounded == /\ aev <= MaxCount /\ acm <= MaxCount /\ \A l \in Lanes : ev[l] <= MaxCount /\ cm[l] <= MaxCount
-           /\ Len(msgQ) <= 3 /\ Len(regQ) <= NL
+           /\ \A m \in Metas : repE[m] <= MaxCount + 1 /\ repC[m] <= MaxCount + 1
+           /\ Len(msgQ) <= 2 /\ Len(regQ) <= NL
 
 -----------------------------------------------------------------------------
 TypeOK == /\ ag \in {"none", "up", "stopped"} /\ added \subseteq Lanes /\ failed \subseteq added
